@@ -3,6 +3,7 @@ from pv import judges, lifecycle, plans, programs
 
 ID = 'C02'
 TITLE = 'outcome views agree / waiters released'
+ANCHORS = ['plumpy.processes:Process.on_finish', 'plumpy.processes:Process.on_except', 'plumpy.processes:Process.on_kill', 'plumpy.processes:Process.on_terminated', 'plumpy.processes:Process.on_close', 'plumpy.processes:Process.step', 'plumpy.processes:Process.result', 'plumpy.processes:Process.killed_msg']
 LEVEL = 'exploration'
 TECHNIQUE = ('runtime monitoring: agreement check over every public outcome accessor, listener/cleanup counters and the stepping task, at '
              'termination and at the end of each run, under enumerated control-request placements')
